@@ -213,7 +213,8 @@ class Parameter(object):
                     'must be equal to the parameter\'s initial value '
                     f'({self._initial})!')
         else:
-            if (v < self._valmin) or (v > self._valmax):
+            # Note: The negated form also rejects NaN.
+            if not ((v >= self._valmin) and (v <= self._valmax)):
                 raise ValueError(
                     f'The value ({v}) of parameter "{self._name}" must be '
                     f'within the range [{self._valmin:g}, {self._valmax:g}]!')
@@ -444,7 +445,8 @@ class Parameter(object):
         valmax = float_cast(
             valmax,
             'The "valmax" property must be castable to type float!')
-        if (initial < valmin) or (initial > valmax):
+        # Note: The negated form also rejects NaN.
+        if not ((initial >= valmin) and (initial <= valmax)):
             raise ValueError(
                 f'The value ({initial}) of parameter "{self._name}" must be '
                 f'within the range [{valmin:g}, {valmax:g}]!')
